@@ -339,4 +339,31 @@ func ardop.(*TNC).DialBandwidth(tnc, targetcall, bw, connectRequests) (c, err)
   at return requires connection-wired-to-this-tnc: $r1 == nil ==> tnc.data != nil && tnc.data.isTCP == tnc.isTCP && tnc.data.dataIn == tnc.dataIn && tnc.data.dataOut == tnc.dataOut && tnc.data.ctrlOut == tnc.out && tnc.data.ctrlIn == tnc.in
   at return#0 requires closed-tnc-refused: tnc.closed && $r1 == ErrTNCClosed
 
+
+# commands: the command line goes to the control port; it is sent again only after the TNC
+# reported a CRC fault for it, the same line, at most three transmissions (defect 41, fixed: set
+# and get used to ignore CRCFAULT and waited for ever)
+ghost var gCmdLine string
+func ardop.(*TNC).get(tnc, cmd) (v, err)
+  props C14
+  nosafety
+  at send#0 requires first-transmission-to-the-control-port: $0 == tnc.out
+  at send#0 set gCmdLine := $1
+  at send#1 requires again-only-after-a-crc-fault: msg.cmd == cmdCRCFault
+  at send#1 requires again-to-the-control-port: $0 == tnc.out
+  at send#1 requires the-same-command: $1 == gCmdLine
+  at send#1 requires at-most-three-transmissions: sent < 3
+  loop 0 invariant transmissions: 1 <= sent && sent <= 3 && gCmdLine == cmd
+
+func ardop.(*TNC).set(tnc, cmd, param) (err)
+  props C14
+  nosafety
+  at send#0 requires first-transmission-to-the-control-port: $0 == tnc.out
+  at send#0 set gCmdLine := $1
+  at send#1 requires again-only-after-a-crc-fault: msg.cmd == cmdCRCFault
+  at send#1 requires again-to-the-control-port: $0 == tnc.out
+  at send#1 requires the-same-command: $1 == gCmdLine
+  at send#1 requires at-most-three-transmissions: sent < 3
+  loop 0 invariant transmissions: 1 <= sent && sent <= 3 && gCmdLine == line
+
 @*/
